@@ -1399,8 +1399,12 @@ pub fn check(rep: &Report) {
     rep.random("per-random", tier.n(300_000, 6_000_000), 16, decode_per, run_per);
     // size-bounded fields at block-size boundaries, each followed by further fields, flat and nested
     let mut sized = Vec::new();
-    for n in [0usize, 1, 255, 256, 1499, 1500, 1501, 4095, 4096, 4097, 8191, 8192, 8193, 12288, 16383, 16384, 16385, 32768, 65535] {
+    for n in [0usize, 1, 255, 256, 1499, 1500, 1501, 4095, 4096, 4097, 8191, 8192, 8193, 12288, 16383, 16384, 16385, 32768, 65535, 65536, 65537, 70000, 131072, 200000] {
         for width in [2u8, 4] {
+            // the length field must be able to hold the size
+            if width == 2 && n > 65535 {
+                continue;
+            }
             let data: Vec<u8> = (0..n).map(|i| (i * 7 + 1) as u8).collect();
             let rec = vec![Field::SizedBlock { width, be: width == 4, gap: vec![], data: data.clone() }, Field::Plain(Shape::U16 { v: 0xBEEF, be: false }), Field::Skip { flag: 0, mask: 1, target: Shape::U8(9) }];
             sized.push(ModelCase { shape: Shape::Component(rec.clone()) });
